@@ -93,6 +93,7 @@ func checkC05(c *Ctx, r *Report) {
 
 	// C05.e requiredness (shared with C06.f)
 	checkRequiredness(c, r, "C05.e")
+	checkWireNameKeys(c, r, "C05.a")
 
 	// C05.f conversion arms cover the primitives validation lets through
 	checkConversionArms(c, r, "C05.f")
@@ -816,5 +817,48 @@ func checkBindingDiscipline(c *Ctx, r *Report, clause string) {
 		}
 		o := r.add(clause, "vocabulary", en+":binding-discipline", en+": every element is converted, raw values are passed on as read, only reviewed functions are applied", []string{"generator/templates/" + en}, sites, viol)
 		o.NonTrivial = true
+	}
+}
+
+// checkWireNameKeys: the key a parameter is looked up under in the request is its wire name and
+// nothing else: every string literal of the parsing partial that carries the wire name IS the
+// wire name (no `name[]`, no prefix, no case change) - a second spelling binds the parameter from
+// a source nobody declared.
+func checkWireNameKeys(c *Ctx, r *Report, clause string) {
+	for _, en := range c.T.Order {
+		eng := c.T.Engines[en]
+		t := eng.Partials["RequestArgsParsing"]
+		if t == nil {
+			continue
+		}
+		viol := ""
+		n := 0
+		var scan func(p *hast.Program, depth int)
+		scan = func(p *hast.Program, depth int) {
+			if p == nil || depth > 5 {
+				return
+			}
+			var partials []string
+			for _, tk := range goToks(flattenProgram(p, &partials)) {
+				if tk.Tok != token.STRING || !strings.Contains(tk.Lit, "NameInSchema") {
+					continue
+				}
+				n++
+				inner := strings.Trim(tk.Lit, "\"`")
+				if !strings.HasPrefix(inner, "M_") || strings.ContainsAny(inner, "[]./ -+") || strings.Count(inner, "M_") != 1 {
+					viol = fmt.Sprintf("%s: a request value is looked up under %s - the parameter's wire name with something added: the parameter is then (also) bound from a key its declaration does not name", en, strings.ReplaceAll(tk.Lit, "M_", "«"))
+				}
+			}
+			for _, pn := range partials {
+				if pt := eng.Partials[pn]; pt != nil {
+					scan(pt.Prog, depth+1)
+				}
+			}
+		}
+		scan(t.Prog, 0)
+		if n < 4 {
+			viol = fmt.Sprintf("%s: only %d wire-name string literals recognised in the parsing partial (floor 4)", en, n)
+		}
+		r.add(clause, "tpl-types", en+":wire-name-keys", en+": every lookup key of the parsing partial is the parameter's wire name as it is", []string{t.File}, []string{t.File + ":1"}, viol)
 	}
 }
